@@ -241,15 +241,9 @@ example : threshold 3 2 = 6004799503160662 ∧ drawKeeps 6004799503160661 3 2 = 
 
 /-! ## 5. NoSampleAgent -/
 
-/-- no_sample_agent_kept_partial. Full statement (not proved as one theorem): "in agent mode, unless disabled, every
-    row of a metric marked NoSampleAgent gets decision keep with factor 1 from Add*;Run".
-    Proved: at every level of `run`, a partition that carries the NoSampleAgent flag (metric, fair-key and
-    fixed-budget partitions take it from their metric: `mkMetric`, `mkKey`, `mkFixed`) is kept whole with factor 1,
-    whichever loop it ends up in. Missing: the induction over the namespace/group levels above the metric level
-    (they never carry the flag and always recurse), and `sampleBucket`'s own bypass in agent_shard_send.go, which is
-    outside the modelled functions. The direct oracle `nosample-agent-row-sampled` checks the end-to-end statement
-    on the real sampler. -/
-theorem no_sample_agent_kept_partial (cfg : Cfg) (ha : cfg.agent = true) (hdis : cfg.disableNoSample = false)
+/-- one level: a partition that carries the NoSampleAgent flag is kept whole with factor 1, whichever loop it ends
+    up in (helper for `no_sample_agent_kept`) -/
+theorem no_sample_level (cfg : Cfg) (ha : cfg.agent = true) (hdis : cfg.disableNoSample = false)
     (fuel : Nat) (g : Group) (ds : List Nat) (p : Group) (hp : p ∈ partition cfg g) (hns : p.noSample = true) :
     ∀ it ∈ p.items, keepEv it ∈ evs (run (fuel + 1) cfg g ds).1 := by
   intro it hit
@@ -267,6 +261,225 @@ theorem no_sample_agent_kept_partial (cfg : Cfg) (ha : cfg.agent = true) (hdis :
       simp [noSampleHit, this, hns, ha, hdis]
     simp only [handle, hflag, if_true, keepAll, evs_map_ev, List.mem_map]
     exact ⟨it, by rw [assign_items]; exact hit, rfl⟩
+
+theorem runs_key_const (key : Item → Int) (l : List Item) : ∀ r ∈ runs key l, ∀ x ∈ r, key x = key (hd r) := by
+  induction l with
+  | nil => simp [runs]
+  | cons a xs ih =>
+    simp only [runs]
+    split
+    · rename_i y ys rest heq
+      rw [heq] at ih
+      split
+      · rename_i hk
+        intro r hr x hx
+        rcases List.mem_cons.1 hr with rfl | hr
+        · rcases List.mem_cons.1 hx with rfl | hx
+          · rfl
+          · have := ih (y :: ys) (by simp) x hx
+            simp only [hd, List.headD_cons] at this ⊢
+            rw [this, hk]
+        · exact ih r (by simp [hr]) x hx
+      · intro r hr x hx
+        rcases List.mem_cons.1 hr with rfl | hr
+        · simp at hx; subst hx; rfl
+        · exact ih r hr x hx
+    · rename_i rest heq
+      rw [heq] at ih
+      intro r hr x hx
+      rcases List.mem_cons.1 hr with rfl | hr
+      · simp at hx; subst hx; rfl
+      · exact ih r (by simp [hr]) x hx
+    · intro r hr x hx
+      simp at hr; subst hr
+      simp at hx; subst hx; rfl
+
+/-- rows of one metric agree on the NoSampleAgent flag (it is a property of the metric) -/
+def FlagConsistent (l : List Item) : Prop := ∀ a ∈ l, ∀ b ∈ l, a.metric = b.metric → a.noSample = b.noSample
+
+/-- a partition either carries the flag of all its rows (metric level and below) or sits above the metric level,
+    never carries the flag and is entered by the sampling loop -/
+def FlagOrAbove (cfg : Cfg) (p : Group) : Prop :=
+  (∀ x ∈ p.items, x.metric = (hd p.items).metric) ∧ p.noSample = (hd p.items).noSample ∨
+  (p.noSample = false ∧ p.depth < nPart cfg)
+
+theorem kindAt_ns_grp_depth (cfg : Cfg) (d : Nat) (h : kindAt cfg d = .byNs ∨ kindAt cfg d = .byGroup) : d + 1 < nPart cfg := by
+  rcases cfg with ⟨_, _, _, _, _, sb, sn, sg, _, _, _, _⟩
+  rcases d with _ | _ | _ | _ | d <;> cases sb <;> cases sn <;> cases sg <;>
+    simp [kindAt, nPart, partList] at h ⊢
+
+theorem partPlain_flag (cfg : Cfg) (k : PartKind) (d : Nat) (l : List Item)
+    (hk : k = .byMetric ∨ ((k = .byNs ∨ k = .byGroup) ∧ d + 1 < nPart cfg)) :
+    ∀ p ∈ partPlain cfg k d l, FlagOrAbove cfg p := by
+  intro p hp
+  rcases hk with rfl | ⟨rfl | rfl, hd'⟩
+  · simp only [partPlain, List.mem_map] at hp
+    obtain ⟨r, hr, rfl⟩ := hp
+    exact Or.inl ⟨fun x hx => runs_key_const (·.metric) l r hr x hx, rfl⟩
+  · simp only [partPlain, List.mem_map] at hp
+    obtain ⟨r, hr, rfl⟩ := hp
+    exact Or.inr ⟨rfl, hd'⟩
+  · simp only [partPlain, List.mem_map] at hp
+    obtain ⟨r, hr, rfl⟩ := hp
+    exact Or.inr ⟨rfl, hd'⟩
+
+theorem kindAfterBudget_ok (cfg : Cfg) (h : kindAt cfg 0 = .byBudget) :
+    kindAfterBudget cfg = .byMetric ∨ ((kindAfterBudget cfg = .byNs ∨ kindAfterBudget cfg = .byGroup) ∧ 0 + 1 + 1 < nPart cfg) := by
+  rcases cfg with ⟨_, _, _, _, _, sb, sn, sg, _, _, _, _⟩
+  cases sb <;> cases sn <;> cases sg <;> simp [kindAt, nPart, partList, kindAfterBudget] at h ⊢
+
+theorem kindAt_budget_depth (cfg : Cfg) (d : Nat) (h : kindAt cfg d = .byBudget) : d = 0 := by
+  cases d with
+  | zero => rfl
+  | succ n => exact absurd h (kindAt_pos' cfg (n + 1) (by omega))
+where
+  kindAt_pos' (cfg : Cfg) (d : Nat) (hd : 1 ≤ d) : kindAt cfg d ≠ .byBudget := by
+    cases d with
+    | zero => omega
+    | succ n =>
+      rcases cfg with ⟨_, _, _, _, _, sb, sn, sg, _, _, _, _⟩
+      rcases n with _ | _ | _ | n <;> cases sb <;> cases sn <;> cases sg <;> simp [kindAt, partList]
+
+theorem kindAt_key_depth (cfg : Cfg) (d : Nat) (h : d < nPart cfg) : kindAt cfg d ≠ .byKey := by
+  rcases cfg with ⟨_, _, _, _, _, sb, sn, sg, _, _, _, _⟩
+  rcases d with _ | _ | _ | _ | d <;> cases sb <;> cases sn <;> cases sg <;>
+    simp [kindAt, nPart, partList] at h ⊢ <;> omega
+
+theorem partition_flag (cfg : Cfg) (g : Group) (hd' : g.depth < nPart cfg) : ∀ p ∈ partition cfg g, FlagOrAbove cfg p := by
+  intro p hp
+  unfold partition at hp
+  split at hp
+  · rename_i hk
+    have h0 := kindAt_budget_depth cfg _ hk
+    simp only [partBudget, List.mem_append, List.mem_map] at hp
+    rcases hp with ⟨r, hr, rfl⟩ | hp
+    · exact Or.inl ⟨fun x hx => runs_key_const (·.metric) _ r (List.takeWhile_subset _ hr) x hx, rfl⟩
+    · rw [h0] at hp hk
+      exact partPlain_flag cfg _ _ _ (kindAfterBudget_ok cfg hk) p hp
+  · rename_i k hk
+    refine partPlain_flag cfg _ _ _ ?_ p hp
+    cases hkk : kindAt cfg g.depth with
+    | byBudget => exact absurd hkk (by simpa using hk)
+    | byNs => exact Or.inr ⟨Or.inl rfl, kindAt_ns_grp_depth cfg _ (Or.inl hkk)⟩
+    | byGroup => exact Or.inr ⟨Or.inr rfl, kindAt_ns_grp_depth cfg _ (Or.inr hkk)⟩
+    | byMetric => exact Or.inl rfl
+    | byKey => exact absurd hkk (kindAt_key_depth cfg _ hd')
+
+
+theorem partition_depth_gt (cfg : Cfg) (g : Group) (hd' : g.depth < nPart cfg) : ∀ p ∈ partition cfg g, g.depth + 1 ≤ p.depth := by
+  intro p hp
+  have plain : ∀ k d l, ∀ p ∈ partPlain cfg k d l, d + 1 ≤ p.depth := by
+    intro k d l p hp
+    cases k <;> simp only [partPlain, List.mem_map, List.not_mem_nil] at hp
+    all_goals (obtain ⟨r, _, rfl⟩ := hp; simp [mkNs, mkGrp, mkMetric, mkKey])
+  unfold partition at hp
+  split at hp
+  · simp only [partBudget, List.mem_append, List.mem_map] at hp
+    rcases hp with ⟨r, _, rfl⟩ | hp
+    · simp only [mkFixed]; omega
+    · have := plain _ _ _ p hp; omega
+  · exact plain _ _ _ p hp
+
+theorem rounded_depth (cfg : Cfg) (g : Group) (ds : List Nat) : (rounded cfg g ds).1.depth = g.depth := by
+  unfold rounded
+  split
+  · rfl
+  · split <;> rfl
+
+/-- in agent mode every row of a NoSampleAgent metric below a group above the metric level is kept with factor 1,
+    provided the recursion has enough fuel to reach the metric level -/
+theorem run_noSample (cfg : Cfg) (ha : cfg.agent = true) (hdis : cfg.disableNoSample = false) (fuel : Nat) :
+    ∀ (g : Group) (ds : List Nat), g.depth < nPart cfg → nPart cfg ≤ g.depth + fuel → FlagConsistent g.items →
+      ∀ it ∈ g.items, it.noSample = true → keepEv it ∈ evs (run fuel cfg g ds).1 := by
+  induction fuel with
+  | zero => intro g ds h1 h2; omega
+  | succ n ih =>
+    intro g ds hdep hfuel hcons it hit hns
+    obtain ⟨p, hp, hip⟩ := mem_partition_items cfg g it hit
+    have hsub := partition_items_sub cfg g p hp
+    have hperm := isort_perm groupLe (partition cfg g)
+    simp only [run, evs_append, List.mem_append]
+    rcases kept_or_rest g.budget (partWeight cfg g) _ p (hperm.mem_iff.2 hp) with h | h
+    · exact Or.inl (h it hip)
+    · right
+      obtain ⟨ds', hds⟩ := sampleLoop_mem cfg (run n cfg) _ _ _ ds p h
+      apply hds
+      generalize restB g.budget (partWeight cfg g) (isort groupLe (partition cfg g)) = B'
+      generalize restW g.budget (partWeight cfg g) (isort groupLe (partition cfg g)) = W'
+      have qi : (assign B' W' p).items = p.items := assign_items _ _ _
+      have qn : (assign B' W' p).noSample = p.noSample := by unfold assign; split <;> rfl
+      have qd : (assign B' W' p).depth = p.depth := by unfold assign; split <;> rfl
+      rcases partition_flag cfg g hdep p hp with ⟨hmet, hflag⟩ | ⟨hfalse, hpd⟩
+      · have hne : p.items ≠ [] := by intro h0; rw [h0] at hip; simp at hip
+        have hhd := hd_mem' p.items hne
+        have : it.noSample = (hd p.items).noSample := hcons it hit _ (hsub _ hhd) (hmet it hip)
+        have hpn : p.noSample = true := by rw [hflag, ← this]; exact hns
+        have : noSampleHit cfg (assign B' W' p) = true := by simp [noSampleHit, qn, hpn, ha, hdis]
+        simp only [handle, this, if_true, keepAll, evs_map_ev, List.mem_map]
+        exact ⟨it, by rw [qi]; exact hip, rfl⟩
+      · have h1 : noSampleHit cfg (assign B' W' p) = false := by simp [noSampleHit, qn, hfalse]
+        have h2 : recurses cfg (assign B' W' p) = true := by simp only [recurses, qd, decide_eq_true_eq]; omega
+        simp only [handle, h1, h2, Bool.false_eq_true, if_false, if_true, evs_append, List.mem_append]
+        right
+        have hge := partition_depth_gt cfg g hdep p hp
+        apply ih
+        · rw [rounded_depth, qd]; exact hpd
+        · rw [rounded_depth, qd]; omega
+        · rw [rounded_items, qi]
+          intro a ha' b hb' hab
+          exact hcons a (hsub a ha') b (hsub b hb') hab
+        · rw [rounded_items, qi]; exact hip
+        · exact hns
+where
+  hd_mem' (l : List Item) (h : l ≠ []) : hd l ∈ l := by
+    cases l with
+    | nil => exact absurd rfl h
+    | cons x xs => simp [hd]
+
+/-- no_sample_agent_kept. In agent mode, unless DisableNoSampleAgent is set, every row (accepted by Add) of a metric
+    marked NoSampleAgent is kept with factor 1 by Add*;Run — for every bucket in which the flag is a property of the
+    metric, every budget, option set, draw stream, tie order; both code variants and all selection modes. -/
+theorem no_sample_agent_kept (cfg : Cfg) (ha : cfg.agent = true) (hdis : cfg.disableNoSample = false)
+    (items : List Item) (budget : Int) (ds : List Nat) (hcons : FlagConsistent items)
+    (it : Item) (hit : it ∈ items) (hsz : 1 ≤ it.size) (hns : it.noSample = true) :
+    keepEv (prep cfg it) ∈ evs (runBucket cfg items budget ds) := by
+  have hadd : prep cfg it ∈ added cfg items := by
+    simp only [added, List.mem_map, List.mem_filter]
+    exact ⟨it, ⟨hit, by simp; omega⟩, rfl⟩
+  have hpf : ∀ x : Item, (prep cfg x).metric = x.metric ∧ (prep cfg x).noSample = x.noSample := by
+    intro x; unfold prep; split <;> exact ⟨rfl, rfl⟩
+  simp only [runBucket, evs_append, List.mem_append]
+  right
+  have hne : (added cfg items).isEmpty = false := by
+    cases h : added cfg items with
+    | nil => rw [h] at hadd; simp at hadd
+    | cons => rfl
+  simp only [hne, Bool.false_eq_true, if_false]
+  have hperm := isort_perm itemLe (added cfg items)
+  refine run_noSample cfg ha hdis fuel0 (topGroup cfg items budget) ds ?_ ?_ ?_ (prep cfg it) (hperm.mem_iff.2 hadd) ?_
+  · show 0 < nPart cfg
+    have := nPart_pos' cfg; omega
+  · show nPart cfg ≤ 0 + fuel0
+    have := nPart_le cfg; simp [fuel0]; omega
+  · intro a ha' b hb' hab
+    have ha2 := hperm.mem_iff.1 ha'
+    have hb2 := hperm.mem_iff.1 hb'
+    simp only [added, List.mem_map, List.mem_filter] at ha2 hb2
+    obtain ⟨a0, ⟨ha0, _⟩, rfl⟩ := ha2
+    obtain ⟨b0, ⟨hb0, _⟩, rfl⟩ := hb2
+    rw [(hpf a0).2, (hpf b0).2]
+    rw [(hpf a0).1, (hpf b0).1] at hab
+    exact hcons a0 ha0 b0 hb0 hab
+  · rw [(hpf it).2]; exact hns
+where
+  nPart_pos' (cfg : Cfg) : 1 ≤ nPart cfg := by
+    unfold nPart partList
+    simp only [List.length_append, List.length_cons, List.length_nil]
+    omega
+  nPart_le (cfg : Cfg) : nPart cfg ≤ 4 := by
+    rcases cfg with ⟨_, _, _, _, _, sb, sn, sg, _, _, _, _⟩
+    cases sb <;> cases sn <;> cases sg <;> simp [nPart, partList]
+
 
 /-- the flag of a metric level partition is the flag of its (first) row -/
 theorem metric_partition_flag (d : Nat) (l : List Item) :
